@@ -541,7 +541,7 @@ M("rb-c11-6-helper-no-comb-check", ["C05"], PYEVAL, "    if sim.slots[slot].is_c
 M("rb-c08-5-helper-flag-after-run", ["C08"], PYSIM, "        process.runnable = False\n        process.run()", "        process.run()\n        process.runnable = False", "R-08b", base="C08-5")
 M("rb-c17-6-chain-wrong-domain", ["C17", "C13"], "amaranth/lib/cdc.py", "        last = _chain_flops(m, self._o_domain, self.i, flops)", '        last = _chain_flops(m, "sync", self.i, flops)', "R-17a", base="C17-6")
 M("rb-c13-4-chain-skips-input", ["C17", "C13"], "amaranth/lib/cdc.py", "        prev_stage = self.i\n", "        prev_stage = Const(0)\n", "R-17a", base="C13-4")
-M("rb-c06-5-conflict-check-dropped", ["C06"], IR, "                            self._check_driver_conflict(sig, bit, driver, assign, *driven_bits[bit])", "                            pass", "R-06e", base="C06-5")
+M("rb-c06-5-conflict-check-dropped", ["C06"], IR, "                    self._check_driver_conflict(sig, bit, driver, assign, *driven_bits[bit])", "                    pass", "R-06e", base="C06-5")
 M("rb-c18-1-direction-bidir-input", ["C18"], LIO, "        if self is other or other is Direction.Bidir:", "        if self is other or other is Direction.Input:", "R-18a", base="C18-1")
 M("rb-c10-4-enum-unify-dropped-member", ["C10"], AST, "                member_shapes.append(Const.cast(member.value).shape())", "                member_shapes = [Const.cast(member.value).shape()]", "R-10c", base="C10-4")
 M("rb-c01-3-unify-no-zero-bit", ["C01", "C10"], AST, "return signed(max(*signed_widths, unsigned_width + 1))", "return signed(max(*signed_widths, unsigned_width))", ["R-01e", "R-10c"], base="C01-3")
